@@ -36,6 +36,7 @@ type preparedCall struct {
 	spread   bool
 	iface    bool
 	fieldKey string // "pkg.Type.field" when the callee was loaded from a struct field
+	argTypes []types.Type
 }
 
 func funcFullName(fn *types.Func) string {
@@ -94,6 +95,13 @@ func (x *Exec) prepareCall(fr *Frame, e *ast.CallExpr, st *State, k func(*State,
 				}
 			}
 			pc.args = args
+			for _, a := range e.Args {
+				if t := info.TypeOf(a); t != nil {
+					pc.argTypes = append(pc.argTypes, x.resolveType(t))
+				} else {
+					pc.argTypes = append(pc.argTypes, nil)
+				}
+			}
 			k(st, pc)
 		})
 	}
@@ -635,7 +643,9 @@ func (x *Exec) bindParams(nf *Frame, recv *ast.FieldList, ft *ast.FuncType, sig 
 				if sig.Variadic() && i == np-1 && !pc.spread {
 					st.vars[obj] = x.packVariadic(st, x.resolveType(obj.Type()), pc.args[i:])
 				} else if i < len(pc.args) {
+					x.assignSrcType = x.argType(pc, i)
 					st.vars[obj] = x.convertAssign(st, pc.args[i], obj.Type())
+					x.assignSrcType = nil
 				}
 			}
 			i++
@@ -781,6 +791,12 @@ func (x *Exec) applyAssigns(fr *Frame, st *State, fc *FuncContract, env *SpecEnv
 	}
 	for _, a := range fc.Assigns {
 		if a == "nothing" {
+			continue
+		}
+		if strings.HasPrefix(a, "ghost:") {
+			name := strings.TrimPrefix(a, "ghost:")
+			old := st.ghostArr(name, SInt)
+			st.setGhostArr(name, Var(x.fresh("G_"+name), old.Sort))
 			continue
 		}
 		// a names a heap key prefix, e.g. "EntryMetadata.Expires"
@@ -1076,4 +1092,12 @@ func (x *Exec) appendCall(fr *Frame, e *ast.CallExpr, st *State, k func(*State, 
 			panic(x.unsupported(fmt.Sprintf("append to %T", base)))
 		}
 	})
+}
+
+// argType is the static type of the i-th argument expression of a call, if known.
+func (x *Exec) argType(pc *preparedCall, i int) types.Type {
+	if pc.e == nil || pc.argTypes == nil || i >= len(pc.argTypes) {
+		return nil
+	}
+	return pc.argTypes[i]
 }
